@@ -209,20 +209,30 @@ def build(ctx):
                     "ha": I2.call(I2.getattr(A, "__hash__"), []), "hb": I2.call(I2.getattr(B, "__hash__"), [])}
         res = I.explore(thunk, pre=rng)
         key = lambda v: z3.If(v == 6, z3.IntVal(0), v)      # spec: carbon first, then atomic number
+
+        def order_replay(m):
+            e = _el()
+            zs = [int(m.get(f"z{i}", 1)) for i in range(3)]
+            A, B, C = (e.Element.from_atomic_number(q) for q in zs)
+            k = lambda q: 0 if q == 6 else q
+            obs = {"A<B": A < B, "B<A": B < A, "B<C": B < C, "A<C": A < C, "A<A": A < A, "A==B": A == B}
+            bad = (obs["A<B"] != (k(zs[0]) < k(zs[1])) or obs["A<A"] or (obs["A<B"] and obs["B<A"]) or (obs["A<B"] and obs["B<C"] and not obs["A<C"])
+                   or not (obs["A<B"] or obs["B<A"] or zs[0] == zs[1]) or obs["A==B"] != (zs[0] == zs[1]) or (obs["A==B"] and hash(A) != hash(B)))
+            return {"native_inputs": {"atomic_numbers": zs}, "reproduced": bool(bad), "observed": obs}
         for k, r in enumerate(res):
             v = r.value
             sfx = f"/path{k}"
             fn = ctx.fn(MOD, "Element.__lt__")
             ctx.prove("element.Element.__lt__/ensures/spec" + sfx, r.pc, v["ab"] == (key(a) < key(b)),
-                      clause="A < B  <=>  key(A) < key(B) with key = 0 for carbon, atomic number otherwise", fn=fn)
-            ctx.prove("element.Element.__lt__/ensures/irreflexive" + sfx, r.pc, z3.Not(v["aa"]), clause="not A < A", fn=fn)
-            ctx.prove("element.Element.__lt__/ensures/asymmetric" + sfx, r.pc, z3.Not(z3.And(v["ab"], v["ba"])), clause="not (A<B and B<A)", fn=fn)
-            ctx.prove("element.Element.__lt__/ensures/transitive" + sfx, r.pc, z3.Implies(z3.And(v["ab"], v["bc"]), v["ac"]), clause="A<B and B<C => A<C", fn=fn)
-            ctx.prove("element.Element.__lt__/ensures/total" + sfx, r.pc, z3.Or(v["ab"], v["ba"], a == b), clause="A<B or B<A or same element", fn=fn)
+                      clause="A < B  <=>  key(A) < key(B) with key = 0 for carbon, atomic number otherwise", fn=fn, replay=order_replay)
+            ctx.prove("element.Element.__lt__/ensures/irreflexive" + sfx, r.pc, z3.Not(v["aa"]), clause="not A < A", fn=fn, replay=order_replay)
+            ctx.prove("element.Element.__lt__/ensures/asymmetric" + sfx, r.pc, z3.Not(z3.And(v["ab"], v["ba"])), clause="not (A<B and B<A)", fn=fn, replay=order_replay)
+            ctx.prove("element.Element.__lt__/ensures/transitive" + sfx, r.pc, z3.Implies(z3.And(v["ab"], v["bc"]), v["ac"]), clause="A<B and B<C => A<C", fn=fn, replay=order_replay)
+            ctx.prove("element.Element.__lt__/ensures/total" + sfx, r.pc, z3.Or(v["ab"], v["ba"], a == b), clause="A<B or B<A or same element", fn=fn, replay=order_replay)
             ctx.prove("element.Element.__eq__/ensures/same_number" + sfx, r.pc, v["eq_ab"] == (a == b), clause="A == B <=> same atomic number",
-                      fn=ctx.fn(MOD, "Element.__eq__"))
+                      fn=ctx.fn(MOD, "Element.__eq__"), replay=order_replay)
             ctx.prove("element.Element.__hash__/ensures/consistent" + sfx, r.pc, z3.Implies(v["eq_ab"], v["ha"] == v["hb"]), clause="A == B => equal hashes",
-                      fn=ctx.fn(MOD, "Element.__hash__"))
+                      fn=ctx.fn(MOD, "Element.__hash__"), replay=order_replay)
     ctx.attempt("element.Element.__lt__/ensures/spec", ob_order)
 
     # ---------------------------------------------------------------- P: vectorised helpers on a symbolic array (two cells: each output cell depends on its own input)
@@ -317,22 +327,33 @@ def bounded_formula(ctx):
     rng = np.random.default_rng(ctx.seed + 17)
     n = 300 if ctx.tier == "quick" else 5000
     fails, distinct = [], set()
+    sub = lambda k: "".join(chr(0x2080 + int(ch)) for ch in str(k))
 
-    def spec_formula(els):
+    def spec_formula(els, subscript):
         cnt = {}
         for e in els:
             cnt[e.atomic_number] = cnt.get(e.atomic_number, 0) + 1
         order = sorted(cnt, key=lambda zz: (0 if zz == 6 else 1, zz))
-        return "".join(el.Element.from_atomic_number(zz).symbol + (str(cnt[zz]) if cnt[zz] > 1 else "") for zz in order)
+        return "".join(el.Element.from_atomic_number(zz).symbol + ((sub(cnt[zz]) if subscript else str(cnt[zz])) if cnt[zz] > 1 else "") for zz in order)
+    cases = []
     for _ in range(n):
-        k = int(rng.integers(1, 30))
-        zs = rng.integers(1, 104, size=k) if rng.integers(0, 2) else rng.choice([1, 6, 7, 8, 9, 17, 5, 3], size=k)
-        els = [el.Element.from_atomic_number(int(q)) for q in zs]
-        got = el.chemical_formula(els)
-        exp = spec_formula(els)
-        distinct.add(tuple(sorted(int(q) for q in zs)))
-        if got != exp and len(fails) < 3:
-            fails.append({"input": {"atomic_numbers": [int(q) for q in zs]}, "observed": {"got": got, "expected": exp},
-                          "clause": "formula lists each distinct element once, carbon first then by atomic number, with its multiplicity", "key": "formula"})
-    ctx.add_bounded("element.chemical_formula/bounded/random_multisets", "seeded random element multisets of size 1..29", n, len(distinct), fails,
-                    rule="distinct multisets")
+        k = int(rng.integers(1, 40))
+        zs = rng.integers(1, 104, size=k) if rng.integers(0, 2) else rng.choice([1, 6, 7, 8, 9, 17, 5, 3][: int(rng.integers(1, 9))], size=k)
+        cases.append([int(q) for q in zs])
+    for rep in list(range(1, 31)) + [99, 100, 101, 120]:       # one element repeated: every count digit pattern
+        cases.append([8] * rep)
+        cases.append([6] * rep + [1] * (2 * rep))
+    evals = 0
+    for zs in cases:
+        els = [el.Element.from_atomic_number(q) for q in zs]
+        for subscript in (False, True):
+            evals += 1
+            got = el.chemical_formula(list(els), subscript=subscript)
+            exp = spec_formula(els, subscript)
+            distinct.add((tuple(sorted(zs)), subscript))
+            if got != exp and len(fails) < 3:
+                fails.append({"input": {"atomic_numbers": zs, "subscript": subscript}, "observed": {"got": got, "expected": exp},
+                              "clause": "formula lists each distinct element once, carbon first then by atomic number, with its multiplicity (plain or unicode subscript digits)",
+                              "key": "formula"})
+    ctx.add_bounded("element.chemical_formula/bounded/multisets", "seeded random element multisets of size 1..39 plus single elements repeated 1..30, 99..101, 120 times; plain and subscript output",
+                    evals, len(distinct), fails, rule="distinct (multiset, subscript) pairs")
